@@ -112,6 +112,16 @@ func mgIsomorphic(a, b *MG) bool {
 // ---- definitions ----
 
 func defFromEdges(n int, f func(add func(i, j int))) *MG {
+	if n > 64 {
+		eg := &EG{N: n}
+		f(func(i, j int) {
+			if i != j {
+				egAdd(eg, i, j)
+			}
+		})
+		eg.norm()
+		return &MG{n: n, big: eg}
+	}
 	m := newMG(n)
 	f(func(i, j int) {
 		if i != j {
@@ -370,6 +380,16 @@ func evalNamed(cc consCase) *Failure {
 	}
 	if w := selfConsistent(g); w != "" {
 		return mk("malformed", w)
+	}
+	if want.big != nil {
+		gotE, prob := egFromLib(g)
+		if prob != "" {
+			return mk("malformed", prob)
+		}
+		if gotE.key() != want.big.key() {
+			return mk("wrong-edges", fmt.Sprintf("%d vertices: %d edges, the definition gives %d edges (or other edges)", gotE.N, len(gotE.Edges), len(want.big.Edges)))
+		}
+		return nil
 	}
 	got := mgFromGraph(g)
 	if exact {
@@ -680,7 +700,7 @@ func runC06(c *Ctx) {
 	c.Rule = "each constructor over its whole accepted domain up to a size (named families from n=0), every transformation on every labelled graph with n<=5 in both representations (every vertex sequence for the induced-subgraph view, every pair for SplitEdge/Contract), every decoder output on the encodings of all graphs with n<=5 and all Pruefer codes n<=6, NewDense on every byte slice over {0,1,2} for n<=4 and NewSparse on permuted/repeated neighbour lists, both re-checked after the caller overwrites its slices; oracle W(g) (symmetric, loop-free, M, Degrees, ascending Neighbours) plus the defining edge set (exact where the numbering is documented, up to isomorphism by a backtracking test otherwise); non-trivial = result with at least one edge or n >= 2"
 	var cases []consCase
 	add := func(cc consCase) { cases = append(cases, cc) }
-	for n := 0; n <= 9; n++ {
+	for n := 0; n <= 40; n++ {
 		for _, fn := range []string{"CompleteGraph", "Path", "Cycle", "Star"} {
 			add(consCase{Fn: fn, P: []int{n}})
 		}
@@ -698,9 +718,28 @@ func runC06(c *Ctx) {
 	for _, n := range []int{3, 5, 7} {
 		add(consCase{Fn: "FlowerSnark", P: []int{n}})
 	}
-	for d := 0; d <= 5; d++ {
+	for d := 0; d <= 6; d++ {
 		add(consCase{Fn: "HypercubeGraph", P: []int{d}})
 		add(consCase{Fn: "FoldedHypercubeGraph", P: []int{d + 1}})
+	}
+	for _, v := range [][]int{{5, 6}, {7, 1, 1}, {1, 9}, {6, 6, 6}, {2, 3, 4, 5}, {10}, {0, 12, 0, 3}, {4, 4, 4, 4, 4}} {
+		add(consCase{Fn: "CompletePartiteGraph", P: v})
+	}
+	for _, ab := range [][2]int{{5, 5}, {2, 9}, {6, 3}, {1, 12}} {
+		add(consCase{Fn: "RookGraph", P: []int{ab[0], ab[1]}})
+	}
+	for _, nk := range [][2]int{{8, 2}, {8, 3}, {9, 2}, {9, 4}, {10, 1}, {10, 5}} {
+		add(consCase{Fn: "KneserGraph", P: []int{nk[0], nk[1]}})
+	}
+	for _, nk := range [][2]int{{7, 2}, {7, 3}, {8, 1}, {8, 4}, {8, 6}} {
+		add(consCase{Fn: "BipartiteKneserGraph", P: []int{nk[0], nk[1]}})
+	}
+	for n := 9; n <= 40; n += 3 {
+		for _, ds := range [][]int{{1}, {2, 5}, {-3, 7}, {n / 2}, {n, 1}, {1, 2, 3, 4}} {
+			add(consCase{Fn: "CirculantGraph", P: append([]int{n}, ds...)})
+		}
+		add(consCase{Fn: "CirculantBipartiteGraph", P: []int{n, n + 2, 0, 1, -5}})
+		add(consCase{Fn: "CirculantBipartiteGraph", P: []int{n + 3, n, 2, n}})
 	}
 	for n := 0; n <= 7; n++ {
 		for k := 0; k <= n+1; k++ {
@@ -742,12 +781,12 @@ func runC06(c *Ctx) {
 			}
 		}
 	}
-	for n := 3; n <= 10; n++ {
+	for n := 3; n <= 24; n++ {
 		for k := 0; k <= (n-1)/2; k++ {
 			add(consCase{Fn: "GeneralisedPetersenGraph", P: []int{n, k}})
 		}
 	}
-	for n := 0; n <= 6; n++ {
+	for n := 0; n <= 20; n++ {
 		add(consCase{Fn: "FriendshipGraph", P: []int{n}})
 	}
 	named := len(cases)
